@@ -19,7 +19,7 @@ func init() {
 		Assume: []string{"error message texts and the number of response messages are not compared; for a failed read only the status is compared (how many rows were streamed before the failure is transport-dependent)", "ListTables order is unspecified (sorted)"},
 		Run:    runC17,
 	})
-	expectedProbes["C17"] = []string{"c17.scan_failed_partway", "c17.limit_cut", "c17.drop_all", "c17.recreated_table", "c17.equal", "c17.real_grpc_transport"}
+	expectedProbes["C17"] = []string{"c17.scan_failed_partway", "c17.limit_cut", "c17.drop_all", "c17.recreated_table", "c17.equal", "c17.real_grpc_transport", "c17.bulk_load"}
 }
 
 func runC17(r *Run) {
@@ -60,11 +60,22 @@ func runC17(r *Run) {
 			} else {
 				d.n(1)
 			}
-			kind := d.w(8, 5, 2, 2, 2, 2)
+			kind := d.w(8, 5, 2, 2, 2, 2, 1)
 			if tbl == "" {
 				kind = 0
 			}
 			switch kind {
+			case 6:
+				// bulk load: a few hundred rows in one MutateRows, so that ranges and scans
+				// cover far more rows than any internal batch an engine might use
+				op = btOp{Kind: "MutateRows", Table: tbl}
+				n := 150 + d.n(250)
+				for e := 0; e < n; e++ {
+					op.Entries = append(op.Entries, entryIn{Key: fmt.Sprintf("a%04d", e), Muts: mutList{setCell("f1", "q", 1000, "b")}})
+				}
+				if wi == 0 {
+					r.Probe("c17.bulk_load")
+				}
 			case 0:
 				op = base(d, model, i)
 			case 1:
@@ -87,7 +98,14 @@ func runC17(r *Run) {
 				if d.n(3) != 0 {
 					op.Filter = fg.tree(d, 0, true)
 				}
-				if d.n(3) == 0 {
+				if d.n(4) == 0 {
+					// a range between two bulk-loaded keys
+					a, b := d.n(400), d.n(400)
+					if a > b {
+						a, b = b, a
+					}
+					op.RowSet = mRowSet{ranges: []mRange{{mBound{1 + d.n(2), fmt.Sprintf("a%04d", a)}, mBound{1 + d.n(2), fmt.Sprintf("a%04d", b)}}}}
+				} else if d.n(3) == 0 {
 					op.RowSet = mRowSet{ranges: []mRange{{c03BoundOf(d.n(15)), c03BoundOf(d.n(15))}}}
 					if d.n(2) == 0 {
 						op.RowSet.keys = []string{btRowKeys[d.n(len(btRowKeys))]}
